@@ -268,6 +268,8 @@ class TokenStore(Generic[_T]):
             end = start
         else:
             end_handle = _check_store_handle(del_end, self)
+            if (end_handle.block.index, end_handle.index) < start:
+                raise ValueError('The end of the range comes before its start.')
             end = (end_handle.block.index, end_handle.index + 1)
         self._splice(tokens, start, end)
 
